@@ -1243,6 +1243,109 @@ def byte_mutant(data, rnd):
     return bytes(b), kind
 
 
+# ----------------------------------------------------------------------------------------------------------------
+# reference cycles (C06): declarations that refer to each other in a ring of length 1..3, used where the tools evaluate
+# or follow the reference (aggregate bounds, string widths, underlying types, supertypes, interface clauses).  Some rings
+# are legal EXPRESS (entities referring to each other, recursive functions), most are not; C06 only asks that the tools
+# survive them.
+
+def _ring(rnd, prefix, k):
+    return ["%s%d_%d" % (prefix, rnd.randrange(1000), i) for i in range(k)]
+
+
+def ref_cycle_snippet(rnd):
+    """-> (label, declarations to put inside a schema, extra schemas text)"""
+    k = rnd.choice([1, 1, 2, 2, 3])
+    shape = rnd.choice(["constant", "constant", "constant", "derived", "type-rename", "type-aggregate", "type-select", "function",
+                        "entity-attr", "subtype", "interface", "inverse", "where"])
+    extra = ""
+    if shape == "constant":
+        ns = _ring(rnd, "zc", k)
+        wrap = lambda x: rnd.choice(["%s", "%s", "%s", "%s", "%s + 1", "-%s", "%s * 2", "(%s)", "%s DIV 1", "1 + %s"]) % x
+        decl = "CONSTANT\n" + "".join("  %s : INTEGER := %s;\n" % (ns[i], wrap(ns[(i + 1) % k])) for i in range(k)) + "END_CONSTANT;\n"
+        c = rnd.choice(ns)
+        uses = ["TYPE zt%d = LIST [1:%s] OF INTEGER;\nEND_TYPE;\n" % (rnd.randrange(1000), c),
+                "TYPE zt%d = ARRAY [%s:%s] OF REAL;\nEND_TYPE;\n" % (rnd.randrange(1000), c, rnd.choice(ns)),
+                "TYPE zt%d = STRING(%s);\nEND_TYPE;\n" % (rnd.randrange(1000), c),
+                "TYPE zt%d = SET [0:%s * 2] OF BINARY(%s);\nEND_TYPE;\n" % (rnd.randrange(1000), c, c),
+                "ENTITY ze%d;\n  a : BAG [%s:?] OF LIST [0:%s] OF INTEGER;\n  s : STRING(%s) FIXED;\nEND_ENTITY;\n" % (rnd.randrange(1000), c, c, c),
+                "ENTITY ze%d;\n  a : INTEGER;\nWHERE\n  w : a < %s;\nEND_ENTITY;\n" % (rnd.randrange(1000), c),
+                "TYPE zt%d = INTEGER;\nWHERE\n  w : SELF > %s;\nEND_TYPE;\n" % (rnd.randrange(1000), c)]
+        decl += "".join(rnd.sample(uses, rnd.choice([1, 2, 3])))
+    elif shape == "derived":
+        ns = _ring(rnd, "zd", k)
+        e = "ze%d" % rnd.randrange(1000)
+        use = rnd.choice(["  a : ARRAY [1:SELF\\%s.%s] OF INTEGER;\n" % (e, ns[0]), "  a : LIST [1:%s] OF INTEGER;\n" % ns[0], "  a : STRING(%s);\n" % ns[0], ""])
+        decl = "ENTITY %s;\n%sDERIVE\n" % (e, use) + "".join("  %s : INTEGER := %s;\n" % (ns[i], rnd.choice(["%s", "%s + 1", "SELF.%s"]) % ns[(i + 1) % k]) for i in range(k)) + "END_ENTITY;\n"
+    elif shape == "type-rename":
+        ns = _ring(rnd, "zt", k)
+        decl = "".join("TYPE %s = %s;\nEND_TYPE;\n" % (ns[i], ns[(i + 1) % k]) for i in range(k))
+        if rnd.random() < 0.6:
+            decl += "ENTITY ze%d;\n  a : %s;\n  b : LIST OF %s;\nEND_ENTITY;\n" % (rnd.randrange(1000), ns[0], ns[-1])
+    elif shape == "type-aggregate":
+        ns = _ring(rnd, "zt", k)
+        aggs = ["LIST OF %s", "SET [1:?] OF %s", "ARRAY [1:2] OF OPTIONAL %s", "BAG OF LIST OF %s", "LIST [0:3] OF UNIQUE %s"]
+        decl = "".join("TYPE %s = %s;\nEND_TYPE;\n" % (ns[i], rnd.choice(aggs) % ns[(i + 1) % k]) for i in range(k))
+        if rnd.random() < 0.6:
+            decl += "ENTITY ze%d;\n  a : %s;\nEND_ENTITY;\n" % (rnd.randrange(1000), ns[0])
+    elif shape == "type-select":
+        ns = _ring(rnd, "zt", k)
+        lst = "zl%d" % rnd.randrange(1000)
+        decl = "".join("TYPE %s = SELECT (%s%s);\nEND_TYPE;\n" % (ns[i], ns[(i + 1) % k] if i else lst, rnd.choice(["", ", " + ns[0]])) for i in range(k))
+        decl += "TYPE %s = %s %s;\nEND_TYPE;\n" % (lst, rnd.choice(["LIST OF", "SET OF", "ARRAY [1:2] OF"]), ns[-1] if k > 1 else ns[0])
+    elif shape == "function":
+        ns = _ring(rnd, "zf", k)
+        par = rnd.choice(["", "(x : INTEGER)"])
+        arg = "(1)" if par else ""
+        decl = "".join("FUNCTION %s%s : INTEGER;\n  RETURN (%s%s);\nEND_FUNCTION;\n" % (ns[i], par, ns[(i + 1) % k], arg) for i in range(k))
+        decl += rnd.choice(["TYPE zt%d = LIST [1:%s%s] OF INTEGER;\nEND_TYPE;\n" % (rnd.randrange(1000), ns[0], arg),
+                            "CONSTANT\n  zc%d : INTEGER := %s%s;\nEND_CONSTANT;\n" % (rnd.randrange(1000), ns[0], arg),
+                            "ENTITY ze%d;\nDERIVE\n  d : INTEGER := %s%s;\nEND_ENTITY;\n" % (rnd.randrange(1000), ns[0], arg)])
+    elif shape == "entity-attr":
+        ns = _ring(rnd, "ze", k)
+        decl = "".join("ENTITY %s;\n  r : %s %s;\nEND_ENTITY;\n" % (ns[i], rnd.choice(["", "OPTIONAL", "LIST [1:?] OF", "SET OF"]), ns[(i + 1) % k]) for i in range(k))
+    elif shape == "subtype":
+        ns = _ring(rnd, "ze", max(k, 1))
+        k2 = len(ns)
+        sat = "ze%d" % rnd.randrange(1000)
+        decl = "".join("ENTITY %s SUBTYPE OF (%s);\n  a%d : INTEGER;\nEND_ENTITY;\n" % (ns[i], ns[(i + 1) % k2], i) for i in range(k2))
+        decl += "ENTITY %s SUBTYPE OF (%s);\n  b : REAL;\nDERIVE\n  d : INTEGER := a0;\nEND_ENTITY;\n" % (sat, ", ".join(rnd.sample(ns, rnd.choice([1, min(2, k2)]))))
+    elif shape == "interface":
+        ns = _ring(rnd, "zs", max(k, 2))
+        k2 = len(ns)
+        kw = rnd.choice(["USE FROM", "REFERENCE FROM"])
+        extra = "".join("SCHEMA %s;\n%s %s%s;\nENTITY e%d;\nEND_ENTITY;\nEND_SCHEMA;\n" %
+                        (ns[i], kw, ns[(i + 1) % k2], rnd.choice(["", " (e%d)" % ((i + 1) % k2), " (e%d AS e%d)" % ((i + 1) % k2, i)]), i) for i in range(k2))
+        decl = "%s %s;\n" % (kw, ns[0])
+    elif shape == "inverse":
+        ns = _ring(rnd, "ze", max(k, 2))
+        k2 = len(ns)
+        decl = "".join("ENTITY %s;\n  r : %s;\nINVERSE\n  i : SET OF %s FOR %s;\nEND_ENTITY;\n" % (ns[i], ns[(i + 1) % k2], ns[(i + 1) % k2], rnd.choice(["r", "i"])) for i in range(k2))
+    else:
+        t = "zt%d" % rnd.randrange(1000)
+        decl = "TYPE %s = INTEGER;\nWHERE\n  w : %s;\nEND_TYPE;\n" % (t, rnd.choice(["SELF IN [%s]" % t, "SIZEOF(QUERY(x <* [SELF] | x > SELF)) = %s" % t,
+                                                                                       "'%s' IN TYPEOF(SELF)" % t.upper(), "%s(SELF) > 0" % t]))
+    return "%s/%d" % (shape, k), decl, extra
+
+
+def ref_cycle(text, rnd):
+    """text: a (valid) EXPRESS file or "" -> (new text, kind): a reference ring spliced into the last schema of text, or alone"""
+    label, decl, extra = ref_cycle_snippet(rnd)
+    low = text.lower()
+    at = low.rfind("end_schema")
+    if at < 0 or rnd.random() < 0.25:
+        name = "zs%d" % rnd.randrange(1000)
+        if label.startswith("interface"):
+            return "%sSCHEMA %s;\n%sEND_SCHEMA;\n" % (extra, name, decl), "ref-cycle:" + label + ":alone"
+        return "SCHEMA %s;\n%sEND_SCHEMA;\n%s" % (name, decl, extra), "ref-cycle:" + label + ":alone"
+    if label.startswith("interface"):
+        # interface clauses come first in a schema body
+        m = re.search(r"(?is)\bschema\s+\w+\s*;", text)
+        if m:
+            return text[:m.end()] + "\n" + decl + text[m.end():] + "\n" + extra, "ref-cycle:" + label
+    return text[:at] + decl + text[at:] + extra, "ref-cycle:" + label
+
+
 def _wrap(body, name="zs"):
     return "SCHEMA %s;\n%s\nEND_SCHEMA;\n" % (name, body)
 
